@@ -7,28 +7,43 @@
 //! `h3::verif::install_preempt` blocks on a baton (Mutex + Condvar): exactly one thread runs
 //! between two pre-emption points and the order is the schedule of the case line.
 //!
-//! case line:  err side=<srv|cli> drv=<pce|full> derr=<-|ccs|c2s> loss=<-|x<code>|t|i> k=<n>
-//!                 serr=<e1,..,ek> sched=<D|S1|S2|S3>,...
+//! case line:  err side=<srv|cli> drv=<pce|full> np=<1|2> derr=<-|ccs|c2s|cms|cid> loss=<-|x<code>|t|i>
+//!                 closing=<-|goaway|shutdown> k=<n> serr=<kind1,..,kindk> sched=<D|S1|S2|S3>,...
 //!   drv=pce : the driver poll is ConnectionInner::poll_connection_error alone
 //!   drv=full: server poll_accept_request_stream / client poll_close (three poll_connection_error calls,
-//!             transport polling in between; with derr/loss the driver detects an error of its own
-//!             after the second one)
-//!   serr    : fu = CANCEL_PUSH on a request stream (H3_FRAME_UNEXPECTED), fe = GOAWAY with an over-long
-//!             payload (H3_FRAME_ERROR), se = SETTINGS frame carrying a forbidden identifier
-//!             (H3_SETTINGS_ERROR), l = nothing queued, the transport reports the connection loss `loss`
+//!             transport polling in between; with derr/loss the driver detects an error of its own: after the
+//!             second call for ccs (control stream closed), c2s (second SETTINGS), cms (first control frame is
+//!             not SETTINGS), a lost transport; after the fourth for cid (GOAWAY with a larger id))
+//!   np      : number of scheduled driver polls (the second only if the first returned Pending); EVERY driver
+//!             poll of a case (set-up, scheduled, later) gets a waker of its own
+//!   closing : before the scheduled phase the connection is already shutting down (peer GOAWAY processed by the
+//!             driver / own shutdown(1) called): is_closing() is true
+//!   serr    : which handle raises, through which API, what the peer did.  On a RequestStream read (server
+//!             poll_recv_data / client recv_response): fu CANCEL_PUSH (H3_FRAME_UNEXPECTED), fe GOAWAY with an
+//!             over-long payload (H3_FRAME_ERROR), se SETTINGS with a forbidden id (H3_SETTINGS_ERROR), ue a
+//!             truncated frame then FIN (the UnexpectedEnd arm, H3_FRAME_ERROR), l lost transport; tfu
+//!             poll_recv_trailers meeting CANCEL_PUSH; qp malformed field section (QPACK_DECOMPRESSION_FAILED):
+//!             server RequestResolver::resolve_request / client recv_response.  On a write with the transport
+//!             lost: wd send_data, wt send_trailers, wf finish, wr server send_response.  On the halves of
+//!             split(): xfu / xl the recv half reads CANCEL_PUSH / the loss, xw the send half writes.  Client
+//!             SendRequest: rq send_request on the lost transport, dr the last SendRequest is dropped
+//!             (H3_NO_ERROR, nothing is returned).
 //!   sched   : who runs at each pre-emption point.  A turn runs the thread to its next blocking point
 //!             ("stream:after_wake" does not block: only the return follows) or to the end of its call;
 //!             turns of finished threads are skipped; afterwards unfinished threads are completed,
 //!             streams in index order, then the driver.
-//! result:  ok d1=<r> woken=<0|1> s1=<r,..> d2=<r> s2=<r,..> s3=<r,..> d3=<r> close=<codes|->
-//!   d1 = the scheduled driver poll, woken = the driver's waker flag after phase 1, s1 = the scheduled
-//!   stream calls; then sequentially: d2 = driver polled again, s2 = every stream reads again after the
-//!   transport was lost (code 999 unless the case already lost it), s3 = every stream then writes (send_data),
-//!   d3 = driver polled a third time,
-//!   close = codes of all OpenStreams::close calls.  `err harness-timeout` if a schedule does not finish.
+//! result:  ok keys=<0|1,..> d1=<r> woken=<0|1> s1=<r,..> d2=<r> s2=<r,..> s3=<r,..> d4=<r> d3=<r> close=<codes|->
+//!   keys = per task: every handle it owns (both halves after split) has the DRIVER's SharedState;
+//!   d1 = the last scheduled driver poll, woken = the flag of the waker passed to THAT poll, s1 = the scheduled
+//!   stream calls (- = the call returns nothing); then sequentially: d2 = driver polled again, the transport is
+//!   lost (code 999 unless the case already lost it), s2 = every stream handle that still exists reads (SendRequest:
+//!   send_request again), s3 = ... writes (send_data), d4 = the driver calls shutdown(0) (the GOAWAY write fails),
+//!   d3 = driver polled a last time, close = codes of all OpenStreams::close calls before the handles are dropped.
+//!   `err harness-timeout` if a schedule does not finish.
 //! Which harness: threads + baton (not the single-threaded fallback).
 use bytes::Bytes;
 use h3v::run_lines;
+use h3::ConnectionState;
 use h3v::simquic::*;
 use std::cell::Cell;
 use std::future::Future;
@@ -196,21 +211,59 @@ impl Pool {
 // ------------------------------------------------------------------ handles
 type SrvConn = h3::server::Connection<SimConn, Bytes>;
 type SrvStream = h3::server::RequestStream<SimBidi<Bytes>, Bytes>;
+type SrvSendHalf = h3::server::RequestStream<SimSend<Bytes>, Bytes>;
+type SrvRecvHalf = h3::server::RequestStream<SimRecv, Bytes>;
+type SrvResolver = h3::server::RequestResolver<SimConn, Bytes>;
 type CliConn = h3::client::Connection<SimConn, Bytes>;
 type CliSend = h3::client::SendRequest<SimOpener, Bytes>;
 type CliStream = h3::client::RequestStream<SimBidi<Bytes>, Bytes>;
+type CliSendHalf = h3::client::RequestStream<SimSend<Bytes>, Bytes>;
+type CliRecvHalf = h3::client::RequestStream<SimRecv, Bytes>;
 
 enum Driver {
     Srv(SrvConn),
-    Cli(CliConn, CliSend),
+    Cli(CliConn, Option<CliSend>),
 }
-enum Stream {
+/// what a stream task owns
+enum Handle {
     Srv(SrvStream),
     Cli(CliStream),
+    SrvSplit(SrvSendHalf, SrvRecvHalf),
+    CliSplit(CliSendHalf, CliRecvHalf),
+    Resolver(Option<SrvResolver>),
+    SendReq(Option<CliSend>),
 }
 
+fn key_of<T: ConnectionState>(x: &T) -> usize {
+    x.shared_state() as *const h3::SharedState as usize
+}
+
+impl Driver {
+    fn key(&self) -> usize {
+        match self {
+            Driver::Srv(c) => key_of(c),
+            Driver::Cli(c, _) => key_of(c),
+        }
+    }
+}
+impl Handle {
+    fn same_state(&self, k: usize) -> bool {
+        match self {
+            Handle::Srv(s) => key_of(s) == k,
+            Handle::Cli(s) => key_of(s) == k,
+            Handle::SrvSplit(a, b) => key_of(a) == k && key_of(b) == k,
+            Handle::CliSplit(a, b) => key_of(a) == k && key_of(b) == k,
+            Handle::Resolver(r) => r.as_ref().map(|r| key_of(r) == k).unwrap_or(true),
+            Handle::SendReq(r) => r.as_ref().map(|r| key_of(r) == k).unwrap_or(true),
+        }
+    }
+}
+
+fn new_flag() -> Arc<Flag> {
+    Arc::new(Flag(AtomicBool::new(false)))
+}
 fn noop_cx_waker() -> Waker {
-    Waker::from(Arc::new(Flag(AtomicBool::new(false))))
+    Waker::from(new_flag())
 }
 
 /// polls a future with a throw-away waker until it is ready (set-up only: everything it waits for is queued)
@@ -231,27 +284,47 @@ fn poll_once<F: Future>(f: F, cx: &mut Context<'_>) -> Poll<F::Output> {
     f.as_mut().poll(cx)
 }
 
-fn poll_driver(d: &mut Driver, full: bool, cx: &mut Context<'_>) -> String {
-    match (d, full) {
-        (Driver::Srv(c), false) => match c.inner.poll_connection_error(cx) {
-            Poll::Pending => "pending".into(),
-            Poll::Ready(Ok(())) => "ok".into(),
-            Poll::Ready(Err(e)) => conn_err(&e),
-        },
-        (Driver::Cli(c, _), false) => match c.inner.poll_connection_error(cx) {
-            Poll::Pending => "pending".into(),
-            Poll::Ready(Ok(())) => "ok".into(),
-            Poll::Ready(Err(e)) => conn_err(&e),
-        },
-        (Driver::Srv(c), true) => match c.poll_accept_request_stream(cx) {
+fn show_pce(p: Poll<Result<(), h3::error::ConnectionError>>) -> String {
+    match p {
+        Poll::Pending => "pending".into(),
+        Poll::Ready(Ok(())) => "ok".into(),
+        Poll::Ready(Err(e)) => conn_err(&e),
+    }
+}
+
+/// one driver poll, with a waker of its own; returns the result and that waker's flag
+fn poll_driver(d: &mut Driver, full: bool) -> (String, Arc<Flag>) {
+    let flag = new_flag();
+    let waker = Waker::from(flag.clone());
+    let mut cx = Context::from_waker(&waker);
+    let r = match (d, full) {
+        (Driver::Srv(c), false) => show_pce(c.inner.poll_connection_error(&mut cx)),
+        (Driver::Cli(c, _), false) => show_pce(c.inner.poll_connection_error(&mut cx)),
+        (Driver::Srv(c), true) => match c.poll_accept_request_stream(&mut cx) {
             Poll::Pending => "pending".into(),
             Poll::Ready(Ok(_)) => "ok".into(),
             Poll::Ready(Err(e)) => conn_err(&e),
         },
-        (Driver::Cli(c, _), true) => match c.poll_close(cx) {
+        (Driver::Cli(c, _), true) => match c.poll_close(&mut cx) {
             Poll::Pending => "pending".into(),
             Poll::Ready(e) => conn_err(&e),
         },
+    };
+    (r, flag)
+}
+
+fn driver_shutdown(d: &mut Driver, n: usize) -> String {
+    let flag = new_flag();
+    let waker = Waker::from(flag);
+    let mut cx = Context::from_waker(&waker);
+    let r = match d {
+        Driver::Srv(c) => poll_once(c.shutdown(n), &mut cx),
+        Driver::Cli(c, _) => poll_once(c.shutdown(n), &mut cx),
+    };
+    match r {
+        Poll::Pending => "pending".into(),
+        Poll::Ready(Ok(())) => "ok".into(),
+        Poll::Ready(Err(e)) => conn_err(&e),
     }
 }
 
@@ -263,70 +336,159 @@ fn show_data<B>(p: Poll<Result<Option<B>, h3::error::StreamError>>) -> String {
         Poll::Ready(Err(e)) => stream_err(&e),
     }
 }
-
-/// the scheduled stream call: server reads the request body, client waits for the response
-fn stream_first(s: &mut Stream, cx: &mut Context<'_>) -> String {
-    match s {
-        Stream::Srv(s) => show_data(s.poll_recv_data(cx)),
-        Stream::Cli(s) => match poll_once(s.recv_response(), cx) {
-            Poll::Pending => "pending".into(),
-            Poll::Ready(Ok(_)) => "response".into(),
-            Poll::Ready(Err(e)) => stream_err(&e),
-        },
-    }
-}
-
-fn stream_again(s: &mut Stream, cx: &mut Context<'_>) -> String {
-    match s {
-        Stream::Srv(s) => show_data(s.poll_recv_data(cx)),
-        Stream::Cli(s) => show_data(s.poll_recv_data(cx)),
-    }
-}
-
-/// a write after the transport was lost (handle_quic_stream_error on the send path)
-fn stream_send(s: &mut Stream, cx: &mut Context<'_>) -> String {
-    let r = match s {
-        Stream::Srv(s) => poll_once(s.send_data(Bytes::from_static(b"x")), cx),
-        Stream::Cli(s) => poll_once(s.send_data(Bytes::from_static(b"x")), cx),
-    };
-    match r {
+fn show_unit(p: Poll<Result<(), h3::error::StreamError>>) -> String {
+    match p {
         Poll::Pending => "pending".into(),
-        Poll::Ready(Ok(())) => "sent".into(),
+        Poll::Ready(Ok(())) => "done".into(),
+        Poll::Ready(Err(e)) => stream_err(&e),
+    }
+}
+fn show_trailers(p: Poll<Result<Option<http::HeaderMap>, h3::error::StreamError>>) -> String {
+    match p {
+        Poll::Pending => "pending".into(),
+        Poll::Ready(Ok(Some(_))) => "trailers".into(),
+        Poll::Ready(Ok(None)) => "none".into(),
         Poll::Ready(Err(e)) => stream_err(&e),
     }
 }
 
-const HEADERS_GET: [&str; 2] = ["0108", "0000d1d7500161c1"];
+fn a_request() -> http::Request<()> {
+    http::Request::builder().method("GET").uri("https://a/").body(()).unwrap()
+}
+fn some_trailers() -> http::HeaderMap {
+    let mut m = http::HeaderMap::new();
+    m.insert("x-t", http::HeaderValue::from_static("1"));
+    m
+}
 
-fn violation(kind: &str) -> Option<&'static str> {
+/// the scheduled call of a stream task
+fn stream_first(kind: &str, h: &mut Handle, cx: &mut Context<'_>) -> String {
+    let x = || Bytes::from_static(b"x");
+    match (kind, h) {
+        ("fu" | "fe" | "se" | "ue" | "l", Handle::Srv(s)) => show_data(s.poll_recv_data(cx)),
+        ("fu" | "fe" | "se" | "ue" | "l" | "qp", Handle::Cli(s)) => match poll_once(s.recv_response(), cx) {
+            Poll::Pending => "pending".into(),
+            Poll::Ready(Ok(_)) => "response".into(),
+            Poll::Ready(Err(e)) => stream_err(&e),
+        },
+        ("tfu", Handle::Srv(s)) => show_trailers(s.poll_recv_trailers(cx)),
+        ("tfu", Handle::Cli(s)) => show_trailers(s.poll_recv_trailers(cx)),
+        ("wd", Handle::Srv(s)) => show_unit(poll_once(s.send_data(x()), cx)),
+        ("wd", Handle::Cli(s)) => show_unit(poll_once(s.send_data(x()), cx)),
+        ("wt", Handle::Srv(s)) => show_unit(poll_once(s.send_trailers(some_trailers()), cx)),
+        ("wt", Handle::Cli(s)) => show_unit(poll_once(s.send_trailers(some_trailers()), cx)),
+        ("wf", Handle::Srv(s)) => show_unit(poll_once(s.finish(), cx)),
+        ("wf", Handle::Cli(s)) => show_unit(poll_once(s.finish(), cx)),
+        ("wr", Handle::Srv(s)) => {
+            let resp = http::Response::builder().status(200).body(()).unwrap();
+            show_unit(poll_once(s.send_response(resp), cx))
+        }
+        ("xfu" | "xl", Handle::SrvSplit(_, r)) => show_data(r.poll_recv_data(cx)),
+        ("xfu" | "xl", Handle::CliSplit(_, r)) => show_data(r.poll_recv_data(cx)),
+        ("xw", Handle::SrvSplit(w, _)) => show_unit(poll_once(w.send_data(x()), cx)),
+        ("xw", Handle::CliSplit(w, _)) => show_unit(poll_once(w.send_data(x()), cx)),
+        ("qp", Handle::Resolver(r)) => {
+            let resolver = r.take().expect("resolver");
+            match poll_once(resolver.resolve_request(), cx) {
+                Poll::Pending => "pending".into(),
+                Poll::Ready(Ok(_)) => "request".into(),
+                Poll::Ready(Err(e)) => stream_err(&e),
+            }
+        }
+        ("rq", Handle::SendReq(Some(r))) => match poll_once(r.send_request(a_request()), cx) {
+            Poll::Pending => "pending".into(),
+            Poll::Ready(Ok(_)) => "stream".into(),
+            Poll::Ready(Err(e)) => stream_err(&e),
+        },
+        ("dr", Handle::SendReq(r)) => {
+            drop(r.take());
+            "-".into()
+        }
+        (k, _) => panic!("driver: kind {} does not fit the handle", k),
+    }
+}
+
+/// later call 1: a read (SendRequest: another send_request); "-" when the handle is gone
+fn stream_again(h: &mut Handle, cx: &mut Context<'_>) -> String {
+    match h {
+        Handle::Srv(s) => show_data(s.poll_recv_data(cx)),
+        Handle::Cli(s) => show_data(s.poll_recv_data(cx)),
+        Handle::SrvSplit(_, r) => show_data(r.poll_recv_data(cx)),
+        Handle::CliSplit(_, r) => show_data(r.poll_recv_data(cx)),
+        Handle::Resolver(_) => "-".into(),
+        Handle::SendReq(Some(r)) => match poll_once(r.send_request(a_request()), cx) {
+            Poll::Pending => "pending".into(),
+            Poll::Ready(Ok(_)) => "stream".into(),
+            Poll::Ready(Err(e)) => stream_err(&e),
+        },
+        Handle::SendReq(None) => "-".into(),
+    }
+}
+
+/// later call 2: a write after the transport was lost (handle_quic_stream_error on the send path)
+fn stream_send(h: &mut Handle, cx: &mut Context<'_>) -> String {
+    let x = Bytes::from_static(b"x");
+    match h {
+        Handle::Srv(s) => show_unit(poll_once(s.send_data(x), cx)),
+        Handle::Cli(s) => show_unit(poll_once(s.send_data(x), cx)),
+        Handle::SrvSplit(w, _) => show_unit(poll_once(w.send_data(x), cx)),
+        Handle::CliSplit(w, _) => show_unit(poll_once(w.send_data(x), cx)),
+        Handle::Resolver(_) | Handle::SendReq(_) => "-".into(),
+    }
+}
+
+const HEADERS_GET: [&str; 2] = ["0108", "0000d1d7500161c1"];
+/// a HEADERS frame whose field section does not decode (required insert count 1 with an empty dynamic table)
+const HEADERS_BAD: &str = "01020100";
+
+/// bytes the peer sends on the task's stream before the scheduled phase (None: nothing)
+fn violation(kind: &str) -> Option<&'static [&'static str]> {
     match kind {
-        "fu" => Some("030100"),     // CANCEL_PUSH(0) on a request stream
-        "fe" => Some("07020000"),   // GOAWAY whose payload is longer than its one field
-        "se" => Some("04020200"),   // SETTINGS with the HTTP/2-reserved identifier 0x2
-        "l" => None,
+        "fu" | "tfu" | "xfu" => Some(&["c:030100"]), // CANCEL_PUSH(0) on a request stream
+        "fe" => Some(&["c:07020000"]),               // GOAWAY whose payload is longer than its one field
+        "se" => Some(&["c:04020200"]),               // SETTINGS with the HTTP/2-reserved identifier 0x2
+        "ue" => Some(&["c:0705", "F"]),              // a GOAWAY frame header announcing 5 bytes, then FIN
+        "l" | "wd" | "wt" | "wf" | "wr" | "xl" | "xw" | "rq" | "dr" | "qp" => None,
         _ => panic!("driver: unknown stream error kind {}", kind),
     }
+}
+fn needs_loss(kind: &str) -> bool {
+    matches!(kind, "l" | "wd" | "wt" | "wf" | "wr" | "xl" | "xw" | "rq")
 }
 
 struct Case {
     server: bool,
     full: bool,
+    np: usize,
     derr: String,
     loss: String,
+    closing: String,
     k: usize,
     serr: Vec<String>,
     sched: Vec<usize>,
 }
 
 fn parse(ws: &[&str]) -> Case {
-    let mut c = Case { server: true, full: false, derr: "-".into(), loss: "-".into(), k: 0, serr: vec![], sched: vec![] };
+    let mut c = Case {
+        server: true,
+        full: false,
+        np: 1,
+        derr: "-".into(),
+        loss: "-".into(),
+        closing: "-".into(),
+        k: 0,
+        serr: vec![],
+        sched: vec![],
+    };
     for w in &ws[1..] {
         let (key, v) = w.split_once('=').expect("key=value");
         match key {
             "side" => c.server = v == "srv",
             "drv" => c.full = v == "full",
+            "np" => c.np = v.parse().unwrap(),
             "derr" => c.derr = v.into(),
             "loss" => c.loss = v.into(),
+            "closing" => c.closing = v.into(),
             "k" => c.k = v.parse().unwrap(),
             "serr" => c.serr = v.split(',').map(|s| s.to_string()).collect(),
             "sched" => {
@@ -342,6 +504,7 @@ fn parse(ws: &[&str]) -> Case {
         }
     }
     assert!(c.k >= 1 && c.k <= 3 && c.serr.len() == c.k, "driver: k/serr");
+    assert!(c.np == 1 || c.np == 2, "driver: np");
     c
 }
 
@@ -349,78 +512,164 @@ fn ev(w: &Shared, e: &str) {
     assert!(apply_event(w, e), "bad event {}", e);
 }
 
-fn build(c: &Case, dflag: &Arc<Flag>) -> (Shared, Driver, Vec<Stream>) {
-    let dwaker = Waker::from(dflag.clone());
-    let mut dcx = Context::from_waker(&dwaker);
+/// builds the connection and one handle per stream task; returns also the stream id each task reads from
+fn build(c: &Case) -> (Shared, Driver, Vec<Handle>, Vec<Option<u64>>) {
+    let with_settings = c.derr != "cms";
     if c.server {
         let w = World::new(Side::Server, 100, 100, None);
         let mut conn: SrvConn = settle(h3::server::builder().build(SimConn { world: w.clone() })).expect("server build");
-        ev(&w, "U2");
-        ev(&w, "2:c:000400");
-        let mut streams = Vec::new();
-        for i in 0..c.k {
+        if with_settings {
+            ev(&w, "U2");
+            ev(&w, "2:c:000400");
+        }
+        let mut handles = Vec::new();
+        let mut ids = Vec::new();
+        for (i, kind) in c.serr.iter().enumerate() {
             let id = 4 * i as u64;
             ev(&w, &format!("B{}", id));
-            for h in HEADERS_GET {
-                ev(&w, &format!("{}:c:{}", id, h));
+            if kind == "qp" {
+                ev(&w, &format!("{}:c:{}", id, HEADERS_BAD));
+            } else {
+                for h in HEADERS_GET {
+                    ev(&w, &format!("{}:c:{}", id, h));
+                }
             }
-            // the driver accepts with ITS waker (so the AtomicWaker holds it, as in a running server)
+            // the driver accepts with a waker of the set-up phase (so the AtomicWaker holds one, as in a running server)
             let resolver = {
                 let mut got = None;
                 for _ in 0..10 {
-                    if let Poll::Ready(r) = poll_once(conn.accept(), &mut dcx) {
+                    let flag = new_flag();
+                    let waker = Waker::from(flag);
+                    let mut cx = Context::from_waker(&waker);
+                    if let Poll::Ready(r) = poll_once(conn.accept(), &mut cx) {
                         got = Some(r);
                         break;
                     }
                 }
                 got.expect("accept ready").expect("accept ok").expect("a request")
             };
+            ids.push(Some(id));
+            if kind == "qp" {
+                handles.push(Handle::Resolver(Some(resolver)));
+                continue;
+            }
             let (_req, s) = settle(resolver.resolve_request()).expect("resolve_request");
-            streams.push(Stream::Srv(s));
+            if kind.starts_with('x') {
+                let (a, b) = s.split();
+                handles.push(Handle::SrvSplit(a, b));
+            } else {
+                handles.push(Handle::Srv(s));
+            }
         }
-        (w, Driver::Srv(conn), streams)
+        (w, Driver::Srv(conn), handles, ids)
     } else {
         let w = World::new(Side::Client, 100, 100, None);
         let (mut conn, mut send): (CliConn, CliSend) =
             settle(h3::client::builder().build::<_, _, Bytes>(SimConn { world: w.clone() })).expect("client build");
-        ev(&w, "U3");
-        ev(&w, "3:c:000400");
+        if with_settings {
+            ev(&w, "U3");
+            ev(&w, "3:c:000400");
+        }
         if c.full {
             // steady state: the driver has been polled and is parked
-            match conn.poll_close(&mut dcx) {
-                Poll::Pending => {}
-                Poll::Ready(e) => panic!("client set-up poll_close: {:?}", e),
+            let (r, _) = poll_driver_cli_setup(&mut conn);
+            assert!(r == "pending", "client set-up poll_close: {}", r);
+        }
+        let mut handles = Vec::new();
+        let mut ids = Vec::new();
+        let mut next_id = 0u64;
+        // SimOpener is not Clone, so there is ONE SendRequest: it goes to the (single) rq / dr task, if any
+        assert!(c.serr.iter().filter(|k| *k == "rq" || *k == "dr").count() <= 1, "driver: at most one rq/dr task");
+        for kind in c.serr.iter() {
+            match kind.as_str() {
+                "rq" | "dr" => {
+                    handles.push(Handle::SendReq(None));
+                    ids.push(None);
+                }
+                _ => {
+                    let s = settle(send.send_request(a_request())).expect("send_request");
+                    ids.push(Some(next_id));
+                    if kind == "qp" {
+                        ev(&w, &format!("{}:c:{}", next_id, HEADERS_BAD));
+                    }
+                    next_id += 4;
+                    if kind.starts_with('x') {
+                        let (a, b) = s.split();
+                        handles.push(Handle::CliSplit(a, b));
+                    } else {
+                        handles.push(Handle::Cli(s));
+                    }
+                }
             }
         }
-        let mut streams = Vec::new();
-        for _ in 0..c.k {
-            let req = http::Request::builder().method("GET").uri("https://a/").body(()).unwrap();
-            let s = settle(send.send_request(req)).expect("send_request");
-            streams.push(Stream::Cli(s));
+        let mut keep = Some(send);
+        for (h, kind) in handles.iter_mut().zip(c.serr.iter()) {
+            if kind == "rq" || kind == "dr" {
+                *h = Handle::SendReq(keep.take());
+            }
         }
-        (w, Driver::Cli(conn, send), streams)
+        (w, Driver::Cli(conn, keep), handles, ids)
     }
+}
+
+fn poll_driver_cli_setup(conn: &mut CliConn) -> (String, Arc<Flag>) {
+    let flag = new_flag();
+    let waker = Waker::from(flag.clone());
+    let mut cx = Context::from_waker(&waker);
+    let r = match conn.poll_close(&mut cx) {
+        Poll::Pending => "pending".to_string(),
+        Poll::Ready(e) => conn_err(&e),
+    };
+    (r, flag)
 }
 
 fn run_case(c: &Case, pool: &mut Pool) -> String {
     if TIMEOUTS.load(Ordering::SeqCst) >= 3 {
         return "err harness-timeout".into();
     }
-    let dflag = Arc::new(Flag(AtomicBool::new(false)));
-    let (w, driver, streams) = build(c, &dflag);
+    let (w, mut driver, handles, ids) = build(c);
     let ctl: u64 = if c.server { 2 } else { 3 };
-    // what the peer / the transport does, all of it before the scheduled calls
+    // ---- the connection is already shutting down?
+    match c.closing.as_str() {
+        "-" => {}
+        "goaway" => {
+            ev(&w, &format!("{}:c:070100", ctl));
+            let (r, _) = poll_driver(&mut driver, true);
+            assert!(r == "pending", "closing=goaway set-up poll: {}", r);
+        }
+        "shutdown" => {
+            let r = driver_shutdown(&mut driver, 1);
+            assert!(r == "ok", "closing=shutdown: {}", r);
+        }
+        x => panic!("driver: unknown closing {}", x),
+    }
+    if c.closing != "-" {
+        let closing = match &driver {
+            Driver::Srv(c) => c.is_closing(),
+            Driver::Cli(c, _) => c.is_closing(),
+        };
+        assert!(closing, "closing family: is_closing() is false");
+    }
+    // ---- what the peer / the transport does, all of it before the scheduled calls
     for (i, kind) in c.serr.iter().enumerate() {
-        if let Some(h) = violation(kind) {
-            ev(&w, &format!("{}:c:{}", 4 * i, h));
-        } else {
-            assert!(c.loss != "-", "driver: serr=l needs loss");
+        if let Some(evs) = violation(kind) {
+            for e in evs {
+                ev(&w, &format!("{}:{}", ids[i].expect("stream id"), e));
+            }
+        }
+        if needs_loss(kind) {
+            assert!(c.loss != "-", "driver: serr={} needs loss", kind);
         }
     }
     match c.derr.as_str() {
         "-" => {}
         "ccs" => ev(&w, &format!("{}:F", ctl)),
         "c2s" => ev(&w, &format!("{}:c:0400", ctl)),
+        "cms" => {
+            ev(&w, &format!("U{}", ctl));
+            ev(&w, &format!("{}:c:00070100", ctl));
+        }
+        "cid" => ev(&w, &format!("{}:c:070100070104", ctl)),
         x => panic!("driver: unknown derr {}", x),
     }
     match c.loss.as_str() {
@@ -429,7 +678,8 @@ fn run_case(c: &Case, pool: &mut Pool) -> String {
         "i" => ev(&w, "I"),
         x => ev(&w, &format!("X{}", &x[1..])),
     }
-    dflag.0.store(false, Ordering::SeqCst);
+    let dkey = driver.key();
+    let keys: Vec<String> = handles.iter().map(|h| (h.same_state(dkey) as u8).to_string()).collect();
 
     // ---- phase 1: scheduled, one OS thread per task
     let n = c.k + 1;
@@ -446,37 +696,38 @@ fn run_case(c: &Case, pool: &mut Pool) -> String {
     for &t in &c.sched {
         assert!(t < n, "driver: schedule names task {}", t);
     }
-    let (dtx, drx) = mpsc::channel::<(String, Driver)>();
-    let full = c.full;
-    let dflag2 = dflag.clone();
-    let mut driver = driver;
+    let (dtx, drx) = mpsc::channel::<(String, Arc<Flag>, Driver)>();
+    let (full, np) = (c.full, c.np);
     let job: Job = Box::new(move || {
         ME.with(|m| m.set(Some((epoch, 0))));
         let _fin = Finish(epoch, 0);
         wait_turn(epoch, 0);
-        let waker = Waker::from(dflag2.clone());
-        // the executor clears the task's flag before it polls
-        dflag2.0.store(false, Ordering::SeqCst);
-        let mut cx = Context::from_waker(&waker);
-        let r = poll_driver(&mut driver, full, &mut cx);
+        let (mut r, mut flag) = poll_driver(&mut driver, full);
+        if np == 2 && r == "pending" {
+            // polled again (woken or not: a spurious poll is allowed), with a new waker
+            let (r2, f2) = poll_driver(&mut driver, full);
+            r = r2;
+            flag = f2;
+        }
         ME.with(|m| m.set(None));
-        let _ = dtx.send((r, driver));
+        let _ = dtx.send((r, flag, driver));
     });
     pool.txs[0].send(job).expect("pool");
     let mut srx = Vec::new();
-    for (i, s) in streams.into_iter().enumerate() {
-        let (tx, rx) = mpsc::channel::<(String, Stream)>();
+    for (i, h) in handles.into_iter().enumerate() {
+        let (tx, rx) = mpsc::channel::<(String, Handle)>();
         srx.push(rx);
-        let mut s = s;
+        let mut h = h;
+        let kind = c.serr[i].clone();
         let job: Job = Box::new(move || {
             ME.with(|m| m.set(Some((epoch, i + 1))));
             let _fin = Finish(epoch, i + 1);
             wait_turn(epoch, i + 1);
             let waker = noop_cx_waker();
             let mut cx = Context::from_waker(&waker);
-            let r = stream_first(&mut s, &mut cx);
+            let r = stream_first(&kind, &mut h, &mut cx);
             ME.with(|m| m.set(None));
-            let _ = tx.send((r, s));
+            let _ = tx.send((r, h));
         });
         pool.txs[i + 1].send(job).expect("pool");
     }
@@ -488,18 +739,18 @@ fn run_case(c: &Case, pool: &mut Pool) -> String {
         return "err harness-timeout".into();
     }
     let tmo = Duration::from_secs(5);
-    let (d1, mut driver) = match drx.recv_timeout(tmo) {
+    let (d1, dflag, mut driver) = match drx.recv_timeout(tmo) {
         Ok(x) => x,
         Err(mpsc::RecvTimeoutError::Disconnected) => return "panic driver task died".into(),
         Err(_) => return "err harness-timeout".into(),
     };
     let mut s1 = Vec::new();
-    let mut streams = Vec::new();
+    let mut handles = Vec::new();
     for rx in srx {
         match rx.recv_timeout(tmo) {
-            Ok((r, s)) => {
+            Ok((r, h)) => {
                 s1.push(r);
-                streams.push(s);
+                handles.push(h);
             }
             Err(mpsc::RecvTimeoutError::Disconnected) => return "panic stream task died".into(),
             Err(_) => return "err harness-timeout".into(),
@@ -507,11 +758,9 @@ fn run_case(c: &Case, pool: &mut Pool) -> String {
     }
 
     // ---- phase 2: later calls on every handle, sequential
+    // was the waker of the last scheduled poll woken (read now: every scheduled task has finished)
     let woken = dflag.0.load(Ordering::SeqCst);
-    let dwaker = Waker::from(dflag.clone());
-    let mut dcx = Context::from_waker(&dwaker);
-    dflag.0.store(false, Ordering::SeqCst);
-    let d2 = poll_driver(&mut driver, c.full, &mut dcx);
+    let (d2, _) = poll_driver(&mut driver, c.full);
     if c.loss == "-" {
         ev(&w, "X999");
     }
@@ -520,15 +769,15 @@ fn run_case(c: &Case, pool: &mut Pool) -> String {
     {
         let nw = noop_cx_waker();
         let mut cx = Context::from_waker(&nw);
-        for s in streams.iter_mut() {
-            s2.push(stream_again(s, &mut cx));
+        for h in handles.iter_mut() {
+            s2.push(stream_again(h, &mut cx));
         }
-        for s in streams.iter_mut() {
-            s3.push(stream_send(s, &mut cx));
+        for h in handles.iter_mut() {
+            s3.push(stream_send(h, &mut cx));
         }
     }
-    dflag.0.store(false, Ordering::SeqCst);
-    let d3 = poll_driver(&mut driver, c.full, &mut dcx);
+    let d4 = driver_shutdown(&mut driver, 0);
+    let (d3, _) = poll_driver(&mut driver, c.full);
     let closes: Vec<String> = {
         let g = w.lock().unwrap();
         g.log
@@ -537,18 +786,20 @@ fn run_case(c: &Case, pool: &mut Pool) -> String {
             .collect()
     };
     let out = format!(
-        "ok d1={} woken={} s1={} d2={} s2={} s3={} d3={} close={}",
+        "ok keys={} d1={} woken={} s1={} d2={} s2={} s3={} d4={} d3={} close={}",
+        keys.join(","),
         d1,
         woken as u8,
         s1.join(","),
         d2,
         s2.join(","),
         s3.join(","),
+        d4,
         d3,
         if closes.is_empty() { "-".to_string() } else { closes.join(",") }
     );
     // dropping the handles closes the connection (H3_NO_ERROR): after the observation was taken
-    drop(streams);
+    drop(handles);
     drop(driver);
     out
 }
